@@ -13,7 +13,7 @@ import (
 
 // fault is one point of the fault enumeration.
 type fault struct {
-	Kind    string // fsize, inject, inject-path, kill, kill-path, input
+	Kind    string // fsize, inject, inject-path, kill, kill-path, input, fsize-longname, inject-fsize
 	Syscall string
 	Errno   string
 	When    int
@@ -28,6 +28,10 @@ func (f fault) String() string {
 		return fmt.Sprintf("fsize=%d", f.FSize)
 	case "input":
 		return fmt.Sprintf("input:%s@%d", f.Input, f.Target)
+	case "fsize-longname":
+		return fmt.Sprintf("fsize=%d+long-name@%d", f.FSize, f.Target)
+	case "inject-fsize":
+		return fmt.Sprintf("inject:%s:%s:when=%d+fsize=%d", f.Syscall, f.Errno, f.When, f.FSize)
 	}
 	return fmt.Sprintf("%s:%s:%s:when=%d:target=%d", f.Kind, f.Syscall, f.Errno, f.When, f.Target)
 }
@@ -36,7 +40,7 @@ var (
 	c16Errnos      = []string{"EIO", "ENOSPC", "EACCES", "EDQUOT"}
 	c16Global      = []string{"write", "pwrite64", "close", "fsync", "rename", "renameat", "renameat2", "fchmod", "fchmodat", "chmod", "ftruncate", "unlinkat", "fstat", "newfstatat", "fchown", "linkat"}
 	c16PathSys     = []string{"openat", "read"}
-	c16Inputs      = []string{"unparseable-source", "unparseable-result", "rewrite-error", "missing-path", "missing-patch", "malformed-patch", "missing-list-entry", "unreadable-source", "unreadable-patch", "directory-named-go", "rewrite-error-plus-other-change"}
+	c16Inputs      = []string{"missing-path-first", "missing-dir-first", "two-missing-paths", "unparseable-source", "unparseable-result", "rewrite-error", "missing-path", "missing-patch", "malformed-patch", "missing-list-entry", "unreadable-source", "unreadable-patch", "directory-named-go", "rewrite-error-plus-other-change"}
 	c16ErrnoText   = map[string]string{"EIO": "input/output error", "ENOSPC": "no space left on device", "EACCES": "permission denied", "EDQUOT": "disk quota exceeded", "EFBIG": "file too large"}
 	c16FaultsCache = map[string][]fault{}
 )
@@ -84,6 +88,32 @@ func c16Faults(tier string) []fault {
 	for w := 1; w <= 3; w++ {
 		for t := 0; t < 4; t++ {
 			out = append(out, fault{Kind: "kill-path", Syscall: "openat", When: w, Target: t})
+		}
+	}
+	// double faults: the first fault sends gopatch down an error path, the second one hits whatever that path does.
+	// (a) the temporary file cannot be created because the target's name is too long, and writes are cut short
+	longK := []int64{0, 1, 100, 1000, 1024, 4096}
+	if tier == "thorough" {
+		longK = nil
+		for k := int64(0); k <= 6000; k += 53 {
+			longK = append(longK, k)
+		}
+	}
+	for _, k := range longK {
+		for t := 0; t < 3; t++ {
+			out = append(out, fault{Kind: "fsize-longname", FSize: k, Target: t})
+		}
+	}
+	// (b) the n-th openat of the process fails (reading a source, creating a temporary file, ...), and writes are cut short
+	maxOpen := 30
+	if tier == "thorough" {
+		maxOpen = 60
+	}
+	for _, e := range []string{"EACCES", "ENOSPC"} {
+		for w := 1; w <= maxOpen; w++ {
+			for _, k := range []int64{0, 700} {
+				out = append(out, fault{Kind: "inject-fsize", Syscall: "openat", Errno: e, When: w, FSize: k})
+			}
 		}
 	}
 	for _, in := range c16Inputs {
@@ -134,6 +164,10 @@ func runC16(ctx *core.Ctx, idx int) *core.Result {
 		files = append(files, fi{fmt.Sprintf("f%d.go", f), src})
 	}
 	tgt := ft.Target % n
+	if ft.Kind == "fsize-longname" {
+		// "." + name + ".<random>.tmp" exceeds NAME_MAX: no temporary file can be created next to this one
+		files[tgt].name = strings.Repeat("L", 245) + fmt.Sprintf("%d.go", tgt)
+	}
 	// pristine inputs: the fault-free baseline is computed from these
 	pristinePatch := patch
 	pristine := map[string]string{}
@@ -141,6 +175,8 @@ func runC16(ctx *core.Ctx, idx int) *core.Result {
 		pristine[f.name] = f.src
 	}
 	extraArgs := []string{}
+	preArgs := []string{}
+	alsoNamed := []string{} // further paths stderr has to name
 	patchArgs := []string{"-p", "../p.patch"}
 	expectFailFile := "" // file that must be reported
 	causeWords := []string{}
@@ -161,6 +197,18 @@ func runC16(ctx *core.Ctx, idx int) *core.Result {
 			patch = "@@\nvar x expression\n@@\n-bump(x)\n+bump(x + 1)\n\n@@\nvar n, y expression\n@@\n-var _ = tgtPair(n, y)\n+var n = y\n"
 			files[tgt].src += "\nvar _ = tgtPair(call(), 1)\n\nvar _ = tgtPair(other(), 2)\n"
 			expectFailFile, causeWords = files[tgt].name, []string{"cannot", "could not"}
+		case "missing-path-first":
+			// a path that cannot be enumerated comes first, good ones follow
+			preArgs = append(preArgs, "nonexistent_"+fmt.Sprint(tgt)+".go")
+			expectFailFile, causeWords = "nonexistent_"+fmt.Sprint(tgt)+".go", []string{"no such file"}
+		case "missing-dir-first":
+			preArgs = append(preArgs, "nonexistent_dir"+fmt.Sprint(tgt)+"/...")
+			expectFailFile, causeWords = "nonexistent_dir"+fmt.Sprint(tgt), []string{"no such file"}
+		case "two-missing-paths":
+			preArgs = append(preArgs, "nonexistent_a"+fmt.Sprint(tgt)+".go")
+			extraArgs = append(extraArgs, "nonexistent_b"+fmt.Sprint(tgt)+"/...")
+			expectFailFile, causeWords = "nonexistent_a"+fmt.Sprint(tgt)+".go", []string{"no such file"}
+			alsoNamed = append(alsoNamed, "nonexistent_b"+fmt.Sprint(tgt))
 		case "missing-path":
 			extraArgs = append(extraArgs, "nonexistent_"+fmt.Sprint(tgt)+".go")
 			expectFailFile, causeWords = "nonexistent_"+fmt.Sprint(tgt)+".go", []string{"no such file"}
@@ -205,7 +253,7 @@ func runC16(ctx *core.Ctx, idx int) *core.Result {
 	if ft.Input == "directory-named-go" {
 		names = append(names, "dir.go")
 	}
-	args := append(append(append([]string{}, patchArgs...), names...), extraArgs...)
+	args := append(append(append(append([]string{}, patchArgs...), preArgs...), names...), extraArgs...)
 	// list.txt paths are relative to the cwd (tree): fix them up
 	fixList := func(d string) {
 		os.WriteFile(filepath.Join(d, "list.txt"), []byte("../p.patch\n../gone.patch\n"), 0o644)
@@ -253,11 +301,16 @@ func runC16(ctx *core.Ctx, idx int) *core.Result {
 	fired := false
 	var raw string
 	switch ft.Kind {
-	case "fsize":
+	case "fsize", "fsize-longname":
 		k := ft.FSize
 		opts.FSize = &k
 		cr = ctx.RunCLI(opts)
 		fired = cr.Exit != 0
+	case "inject-fsize":
+		k := ft.FSize
+		opts.FSize = &k
+		cr, _, raw = ctx.RunCLIStrace(opts, "-e", fmt.Sprintf("inject=%s:error=%s:when=%d", ft.Syscall, ft.Errno, ft.When))
+		fired = strings.Contains(raw, "INJECTED")
 	case "input":
 		if ft.Input == "unreadable-patch" {
 			cr, _, raw = ctx.RunCLIStrace(opts, "-P", "../p.patch", "-e", "inject=openat:error=EACCES:when=1")
@@ -297,7 +350,7 @@ func runC16(ctx *core.Ctx, idx int) *core.Result {
 		rep["tree/"+f.name] = f.src
 	}
 	killed := cr.Exit == -1 && strings.Contains(cr.Signal, "killed")
-	if cc := cr.CrashClass(); cc != "" && !killed && !(ft.Kind == "fsize" && strings.Contains(cc, "file size")) {
+	if cc := cr.CrashClass(); cc != "" && !killed && !(strings.Contains(ft.Kind, "fsize") && strings.Contains(cc, "file size")) {
 		res.Violate("C16/"+cc, stderr, rep)
 		return res
 	}
@@ -404,11 +457,22 @@ func runC16(ctx *core.Ctx, idx int) *core.Result {
 				}
 			}
 		}
-		if ft.Kind == "fsize" || ft.Kind == "inject" || ft.Kind == "inject-path" {
+		if ft.Kind == "fsize" || ft.Kind == "inject" || ft.Kind == "inject-path" || ft.Kind == "fsize-longname" || ft.Kind == "inject-fsize" {
 			// the first file left unpatched must be named together with the errno text
 			want := c16ErrnoText[ft.Errno]
 			if ft.Kind == "fsize" {
 				want = c16ErrnoText["EFBIG"]
+			}
+			// double faults: either cause may be the one that is reported
+			alt := ""
+			switch ft.Kind {
+			case "fsize-longname":
+				want, alt = c16ErrnoText["EFBIG"], "file name too long"
+			case "inject-fsize":
+				alt = c16ErrnoText["EFBIG"]
+			}
+			if alt != "" && strings.Contains(low, alt) {
+				want = alt
 			}
 			if len(realNot) > 0 {
 				named := strings.Contains(stderr, "p.patch") // a failure while loading the patch stops everything
